@@ -1,6 +1,9 @@
 package simrt
 
-import "unsafe"
+import (
+	"time"
+	"unsafe"
+)
 
 // harnessTok stands for "a harness task ended": harness code relies on the scheduler token instead of
 // locks.  A harness task that ends releases on this address and a harness task that returns from WaitCond,
@@ -21,3 +24,18 @@ func hAcquire() { RaceAcquire(unsafe.Pointer(&harnessTok)) }
 //
 //go:norace
 func YieldQuiet() { Point(KYield, nil, nil) }
+
+// coarseTick is the granularity of goutil/coarsetime (its ticker period).
+const coarseTick = 100 * time.Millisecond
+
+// CeilingTimeNow stands in for coarsetime.CeilingTimeNow: the (fake) current time rounded up to the next
+// tick of the coarse clock.  The real one is driven by a real-time ticker started in init, outside any
+// bubble, so deadlines computed from it would never pass on the simulated clock.
+//
+//go:norace
+func CeilingTimeNow() time.Time { return time.Now().Truncate(coarseTick).Add(coarseTick) }
+
+// FloorTimeNow stands in for coarsetime.FloorTimeNow.
+//
+//go:norace
+func FloorTimeNow() time.Time { return time.Now().Truncate(coarseTick) }
